@@ -357,6 +357,12 @@ def oracle(case):
             fails.append('%s(%r) raised %s: %s' % (nm, r, type(e).__name__, e)); continue
         scale = max(1.0, abs(num), abs(got), abs(base(r)) if nm == 'deriv2' else 0.0)
         if not (math.isfinite(num) and math.isfinite(got)): continue
+        # a function that changes by orders of magnitude across the stencil of the numerical estimate (1^41567 next to 0.9995^41567)
+        # cannot be judged by that estimate: outside the range the oracle is sound for
+        try:
+            st = [abs(base(r + k * 1e-3)) for k in (-1.0, -0.5, 0.5, 1.0)]
+            if not all(math.isfinite(v) for v in st) or max(st) > 1e3 * max(1.0, abs(base(r)), min(st)): continue
+        except Exception: continue
         # analytic derivatives: limited by the Richardson estimate (~1e-7); nested central differences of the
         # numerical fallback (h = 1e-6) are themselves only good to ~1e-4 of the function's size
         lim = (2e-2 if nm == 'deriv2' else 1e-4) if uses_fallback(case) else 2e-6
